@@ -15,7 +15,7 @@ ASSUMPTIONS = ["the starting content of a {pep440_version} slot is rendered by b
                "bumpver accepts); everything an update writes is judged by the independent reference"]
 COMPONENTS = {"bumpver cli update/show/grep/test": "real", "files": "real scratch directory", "clock": "simulated",
               "PEP 440 reference": "vendored packaging.version"}
-CAMPAIGNS = [Life("C15", quick=8000, thorough=300000, sv_rate=0.05, vcs="none", pep_any=True, force_pep=True, zero_bid=True, twin_pair=True,
+CAMPAIGNS = [Life("C15", quick=8000, thorough=300000, sv_rate=0.05, vcs="none", pep_any=True, force_pep=True, zero_bid=True, twin_pair=True, invalid_utf8=True,
                   grep_pep=True, dry_rate=0.05),
              TestCmd("C15", quick=8000, thorough=200000, sv_rate=0.05)]
 
